@@ -95,6 +95,25 @@ def _work(task):
         return {'crash': traceback.format_exc(), 'task': task}
 
 
+def scrub(o):
+    """JSON form with memory addresses removed (they differ between two runs of the same trace)."""
+    import re
+    return re.sub(r'0x[0-9a-fA-F]{6,}', '0x', json.dumps(jsonable(o), sort_keys=True, default=repr))
+
+
+def task_in_fresh_process(task):
+    """Run one task in a fresh forked process; returns the set of violation keys (None on crash)."""
+    ctx = multiprocessing.get_context('fork')
+    with ctx.Pool(1) as pool:
+        try:
+            r = pool.apply(_work, (task,))
+        except Exception:
+            return None
+    if 'crash' in r:
+        return None
+    return set(r['violations'])
+
+
 def load_known(prop):
     known, fixed = {}, []
     path = os.path.join(ROOT, 'known_findings.jsonl')
@@ -131,6 +150,15 @@ def main(argv=None):
 
     if args.replay:
         spec = json.load(open(args.replay))
+        if isinstance(spec['replay'], dict) and spec['replay'].get('task_level'):
+            # history-dependent violation: replayed by re-running its whole task in a fresh process
+            keys = task_in_fresh_process(spec['replay']['task'])
+            hit = keys is not None and spec['key'] in keys
+            print(json.dumps({'task_level': True, 'keys': sorted(keys or [])}, indent=1))
+            if hit:
+                print('VIOLATION property=%s replay=%s' % (prop, args.replay))
+                return 1
+            return 0
         out = _mod.replay(spec['replay'])
         print(json.dumps(jsonable(out), indent=1))
         if out.get('violation'):
@@ -207,10 +235,24 @@ def main(argv=None):
         except Exception:
             print('BROKEN-CHECK: replay of %s crashed\n%s' % (key, traceback.format_exc()))
             return 2
-        if jsonable(o1) != jsonable(o2) or not o1.get('violation') or o1['violation'].get('key') != key:
-            print('BROKEN-CHECK: violation %s did not reproduce deterministically (first seen as: %s)' % (key, v['msg'][:500]))
-            print(json.dumps(jsonable([o1, o2]))[:2000])
-            return 2
+        task_level = False
+        if scrub(o1) != scrub(o2) or not o1.get('violation') or o1['violation'].get('key') != key:
+            # Not reproducible in isolation.  Either the harness is nondeterministic (broken check) or the
+            # code under test keeps state across objects (e.g. a module-level buffer shared by instances):
+            # then the violation depends on the executions that came before it.  Decide by re-running the
+            # whole task twice, each time in a fresh process: if the same key shows up both times the
+            # violation is real and deterministic at task level.
+            task = v['replay'].get('task') if isinstance(v['replay'], dict) else None
+            again = [task_in_fresh_process(task), task_in_fresh_process(task)] if task is not None else [None, None]
+            if all(a is not None and key in a for a in again):
+                task_level = True
+                o1 = {'violation': {'key': key, 'msg': v['msg']}, 'task_level': True}
+            else:
+                print('BROKEN-CHECK: violation %s did not reproduce deterministically (first seen as: %s)' % (key, v['msg'][:500]))
+                print(json.dumps(jsonable([o1, o2]))[:2000])
+                return 2
+        if task_level:
+            v = dict(v, replay=dict(v['replay'], task_level=True, key=key))
         path = os.path.join(REPLAYS, prop, digest([key, v['replay']]) + '.json')
         with open(path, 'w') as f:
             json.dump({'property': prop, 'key': key, 'msg': v['msg'],
